@@ -274,7 +274,7 @@ def run(ctx, config):
     rules.append(r1)
 
     # ---- the validator itself
-    r2 = Rule("C26-validator", "K4", "evhttp_header_is_valid_value rejects CR/LF unless followed by SP/HT (obs-fold)", floor=1)
+    r2 = Rule("C26-validator", "K4", "evhttp_header_is_valid_value rejects CR/LF unless followed by SP/HT (obs-fold)", floor=2)
     f = P.fn("evhttp_header_is_valid_value")
     pb = [el for el in f.calls("strpbrk") if is_e(strip(el.e[2][1]), "str") and set(strip(el.e[2][1])[1]) == {"\r", "\n"}]
     zero = [rt for rt in f.returns() if is_e(strip(rt.e[1]), "int") and strip(rt.e[1])[1] == 0]
@@ -288,6 +288,20 @@ def run(ctx, config):
                 vals.add(strip(c[3])[1])
         if vals == {32, 9}:
             okz = True
+    # the scan may step over exactly one line break before demanding SP/HT: a run-skipping advance (strspn over CR/LF, or a
+    # non-constant step) would let an embedded blank line through
+    run_skip = [el for el in f.calls("strspn") if any(is_e(q, "str") and ("\r" in q[1] or "\n" in q[1]) for q in walk(el.e))]
+    steps = []
+    for el, lhs, op, rhs in f.stores():
+        if is_e(strip(lhs), "var") and strip(lhs)[1] == "p" and op in ("+=", "++"):
+            rr = strip(rhs)
+            steps.append(rr[1] if is_e(rr, "int") else None)
+    bounded = bool(steps) and all(s_ is not None and 1 <= s_ <= 2 for s_ in steps) and not run_skip
+    r2.inst("advance", {"steps_after_a_line_break": steps, "strspn_over_crlf": len(run_skip), "at_most_one_line_break_skipped": bounded})
+    if not bounded:
+        r2.bad("K4:evhttp_header_is_valid_value:unbounded-line-break-run", "%s:%d" % (f.file, f.line), f.name,
+               "after a CR/LF the validator skips a whole run of line breaks before demanding SP/HT: a value with an embedded blank line "
+               "(\\r\\n\\r\\n + space) is accepted and ends the header block on the wire")
     r2.inst("shape", {"strpbrk_crlf": len(pb), "rejects_unless_sp_or_ht": okz})
     if not pb or not okz:
         r2.bad("K4:evhttp_header_is_valid_value:shape", "%s:%d" % (f.file, f.line), f.name, "the validator no longer rejects a CR/LF that is not followed by SP or HT")
